@@ -1,13 +1,19 @@
 (* C14 - field-merge validation equals the specification.  Theorems only; proofs in
    Valid/OverlapProps.v and Valid/PairSetProps.v.
 
-   What is proved here: laws of the two memo tables as the code has them, termination of the
-   specification function on every document (cyclic spreads included), sanity of the
-   specification function.  NOT proved: equivalence of the memoised algorithm (steps A-J of
-   overlapping_fields_can_be_merged.py) with [spec_conflicts]; that algorithm is not modelled
-   in Coq, so no equivalence statement is given; the equivalence is checked by the
-   correspondence run of harness/c14.py (implementation vs extracted [spec_conflicts]). *)
-From GV Require Import Base.Prelude Valid.Overlap Valid.OverlapProps Valid.PairSet Valid.PairSetProps.
+   What is proved here: laws of the two memo tables as the code has them; termination of the
+   specification function on every document (cyclic spreads included); sanity of the
+   specification function; for the memoised algorithm as modelled in Valid/OverlapOpt.v (steps
+   A-J with both memo tables, tied to the real rule by verdict, final memo tables and the
+   sequence of memo decisions): every comparison skipped on a memo hit was started earlier
+   under a flag that subsumes the query.
+   NOT proved: equivalence of the memoised algorithm with [spec_conflicts].  It is stated as
+   [C14_equiv_statement] (a definition, not a theorem) and checked instance by instance by the
+   correspondence run of harness/c14.py (real rule vs extracted [spec_conflicts] vs extracted
+   [opt_conflicts]). *)
+From Coq Require Import Permutation.
+From GV Require Import Base.Prelude Valid.Overlap Valid.OverlapProps Valid.PairSet Valid.PairSetProps
+  Valid.OverlapOpt Valid.OverlapOptProps.
 
 (* PairSet: has after add; a non-exclusive entry answers the exclusive and the non-exclusive
    query, an exclusive entry only the exclusive query; the set is unordered; an addition is
@@ -85,6 +91,29 @@ Theorem C14_distinct_names_never_conflict : forall s frags cf df p ss,
 Proof. exact distinct_names_never_conflict. Qed.
 Print Assumptions C14_distinct_names_never_conflict.
 
+(* The memoisation of compared pairs never replaces a comparison by a weaker one: whenever the
+   memoised algorithm (Valid/OverlapOpt.v) skips a fields-vs-fragment or fragment-vs-fragment
+   comparison on a memo hit, the same pair was started earlier in the run under a flag that
+   subsumes the queried one (recorded non-exclusive, or recorded with the same flag): an entry
+   made under "mutually exclusive" never answers a non-exclusive query.  The log is latest
+   first. *)
+Theorem C14_no_hidden_comparison : forall s d order fuel m,
+  opt_run s d order fuel = ROk m \/ opt_run s d order fuel = RConflict m ->
+  forall l1 t a b q l2, m_log m = l1 ++ EvSkip t a b q :: l2 ->
+    exists a' b' r, In (EvStart t a' b' r) l2 /\ same_key t a b a' b' /\ (r = false \/ r = q).
+Proof. intros s d order fuel m H. exact (no_hidden_comparison s d order fuel m H). Qed.
+Print Assumptions C14_no_hidden_comparison.
+
+(* Stated, not proved (see the header): for typed documents with identifying ids, any visiting
+   order of the definitions and enough fuel, the memoised algorithm finds a conflict iff the
+   specification function does. *)
+Definition C14_equiv_statement : Prop :=
+  forall s d order,
+    spec_verdict s d <> VUntyped -> nodupb (doc_all_ids d) = true ->
+    Permutation order (default_order d) ->
+    exists fuel0, forall fuel, (fuel0 <= fuel)%nat ->
+      opt_conflicts s d order fuel = Some (spec_conflicts s d).
+
 (* ---- non-vacuity ---- *)
 Definition ex_schema : schema :=
   [ mkTdef 1 KLeaf []; mkTdef 2 KLeaf [];
@@ -126,6 +155,21 @@ Example C14_example_exclusive :
     (mkDoc [(10, SelInline 90 (Some 11) (SelField (fl 1 40 30) SelNil (SelField (fl 2 40 31) SelNil SelNil)) SelNil)] [])
   = VConflict.
 Proof. vm_compute. repeat split. Qed.
+
+(* the memoised model on the cyclic example: same verdict, and a memo hit in its log *)
+Example C14_example_opt :
+  let d := mkDoc [(10, SelField (fl 1 22 22) (SelSpread 50 SelNil) SelNil)]
+                 [mkFrag 50 11 (SelField (fl 2 40 30) SelNil
+                                (SelField (fl 3 22 22) (SelSpread 50 (SelField (fl 4 40 31) SelNil SelNil)) SelNil))] in
+  opt_conflicts ex_schema d (default_order d) 100 = Some (spec_conflicts ex_schema d) /\
+  let d2 := mkDoc [(10, SelField (fl 1 20 20) (SelSpread 50 SelNil) SelNil)]
+                  [mkFrag 50 11 (SelField (fl 2 22 22) (SelSpread 50 SelNil)
+                                 (SelField (fl 3 22 22) (SelSpread 50 SelNil) SelNil))] in
+  match opt_run ex_schema d2 (default_order d2) 100 with
+  | ROk m => existsb (fun e => match e with EvSkip _ _ _ _ => true | _ => false end) (m_log m) = true
+  | _ => False
+  end.
+Proof. vm_compute. split; reflexivity. Qed.
 
 (* PairSet: an exclusive entry does not answer the non-exclusive query; after re-recording
    non-exclusively it answers both *)
